@@ -1,6 +1,6 @@
 SPECIFICATION Spec
 CONSTANTS
-  Depth = 2
+  Depth = 3
   Styles <- StylesThorough
   WsOpts <- WsThorough
 INVARIANT InvTrue
